@@ -14,6 +14,43 @@ GENERAL_TYPES = ['AbsConstraint', 'MaxConstraint', 'MinConstraint', 'AndConstrai
                  'CondQuadConLE', 'CondQuadConGE', 'CondQuadConEQ', 'IndicatorQuadConLE', 'IndicatorQuadConGE',
                  'IndicatorQuadConEQ', 'PLConstraint']
 LINEAR = ['LinConRange', 'LinConLE', 'LinConEQ', 'LinConGE']
+CONIC_TYPES = ['QuadraticConeConstraint', 'RotatedQuadraticConeConstraint', 'QuadConRange', 'QuadConLE', 'QuadConEQ', 'QuadConGE',
+               'PowConstraint', 'AbsConstraint', 'QuadraticFunctionalConstraint', 'LinearFunctionalConstraint']
+
+
+def gen_accept_conic(rng):
+    k = rng.below(8)
+    if k == 0:
+        return ['ALL']
+    acc = list(LINEAR)
+    if k <= 3:       # cones natively accepted
+        acc += ['QuadraticConeConstraint', 'RotatedQuadraticConeConstraint']
+        for t in CONIC_TYPES[2:]:
+            if rng.chance(1, 2):
+                acc.append(t)
+    elif k <= 5:     # only quadratics accepted
+        acc += ['QuadConRange', 'QuadConLE', 'QuadConEQ', 'QuadConGE']
+        for t in ('PowConstraint', 'AbsConstraint', 'QuadraticConeConstraint'):
+            if rng.chance(1, 3):
+                acc.append(t)
+    else:
+        for t in CONIC_TYPES:
+            if rng.chance(1, 2):
+                acc.append(t)
+    return acc
+
+
+def conic_options(rng):
+    """(driver options, RECSOLVER_QUADOBJ)"""
+    opts = []
+    if rng.chance(2, 3):
+        opts.append('cvt:socp=%d' % rng.choice([0, 1, 2, 2, 2]))
+    if rng.chance(1, 2):
+        opts.append('cvt:socp2qc=%d' % rng.below(3))
+    qenv = rng.choice([0, 1, 1])
+    if rng.chance(2, 3):
+        opts.append('cvt:quadobj=%d' % rng.choice([0, 1, 1]))
+    return opts, qenv
 
 
 def gen_accept(rng):
@@ -36,6 +73,8 @@ class Gen:
     def __init__(self, rng, size=1):
         self.r = rng
         self.size = size
+        self.has_compl = False
+        self.family = 'general'
 
     # ---------------- expressions
     def lin(self, nv, lo=1, hi=3):
@@ -63,8 +102,17 @@ class Gen:
     def num(self, nv, depth):
         r = self.r
         if depth <= 0 or r.chance(1, 5):
-            return self.linexpr(nv) if r.chance(1, 2) else ('v', r.below(nv))
-        k = r.below(12)
+            k0 = r.below(8)
+            if k0 == 0:
+                return ('n', r.rint(0, 3))           # constants: fixed variables shared between conversions (MakeFixedVar)
+            return self.linexpr(nv) if k0 < 4 else ('v', r.below(nv))
+        k = r.below(13)
+        if k == 12:
+            # piecewise-linear term (-> PLConstraint -> SOS2 / lambda variables when not accepted)
+            nb = r.rint(1, 3)
+            bps = sorted({r.rint(-3, 6) for _ in range(nb)})
+            slopes = [r.rint(-2, 3) for _ in range(len(bps) + 1)]
+            return ('pl', slopes, bps, r.below(nv))
         if k < 3:
             return ('abs', self.num(nv, depth - 1))
         if k < 5:
@@ -144,6 +192,73 @@ class Gen:
             taken.add(nm)
             out.append(nm)
         return out
+
+    # ---------------- conic family: SOC / rotated SOC rows + (separable) quadratic objective
+    def conic_model(self):
+        r = self.r
+        m = Model()
+        self.ints = []
+        self.sos_groups = {}
+        nx = r.rint(2, 4)
+        xs = [m.var(-10, 10) for _ in range(nx)]
+        z = m.var(0, 10)
+        y = m.var(0, r.choice([10, None]))
+        w = m.var(0, 10)
+        nv = len(m.vars)
+
+        def sq(j, c=1):
+            e = r.choice([('pow', ('v', j), ('n', 2)), ('*', ('v', j), ('v', j)), ('sqr', ('v', j))]) if r.chance(2, 3) else ('pow', ('v', j), ('n', 2))
+            return e if c == 1 else ('*', ('n', c), e)
+
+        def sumsq(js, coefs=None):
+            ts = [sq(j, (coefs or {}).get(j, 1)) for j in js]
+            return ts[0] if len(ts) == 1 else (('+', ts[0], ts[1]) if len(ts) == 2 else ('sum', ts))
+        for _ in range(r.rint(1, 3)):
+            k = r.below(7)
+            js = xs[:r.rint(2, nx)]
+            if k == 0:      # x^2 + y^2 - z^2 <= 0
+                m.con(None, 0, {}, ('-', sumsq(js), sq(z)))
+            elif k == 1:    # sqrt(x^2+y^2) <= z
+                m.con(None, 0, {z: -1}, ('sqrt', sumsq(js)))
+            elif k == 2:    # ball
+                m.con(None, r.choice([4, 9, 1]), {}, sumsq(js))
+            elif k == 3:    # rotated: x^2 + .. <= 2 y w
+                m.con(None, 0, {}, ('-', sumsq(js), ('*', ('n', 2), ('*', ('v', y), ('v', w)))))
+            elif k == 4:    # z^2 >= x^2 + y^2  written as >=
+                m.con(0, None, {}, ('-', sq(z), sumsq(js)))
+            elif k == 5:    # norm with a constant: sqrt(x^2 + 4) <= z
+                m.con(None, 0, {z: -1}, ('sqrt', ('+', sumsq(js[:1]), ('n', 4))))
+            else:           # abs-based: |x| <= z
+                m.con(None, 0, {z: -1}, ('abs', ('v', js[0])))
+        for _ in range(r.below(3)):
+            m.con(r.rint(-2, 1), None if r.chance(1, 2) else r.rint(2, 9), self.lin(nv, 1, 3))
+        if r.chance(1, 4):      # a linear complementarity row: expr >= 0 complements x >= 0
+            m.con(0, None, self.lin(nv, 1, 2))
+            m.cons[-1]['compl'] = (r.choice([z, w]), 2)
+            self.has_compl = True
+        # objective(s)
+        for _ in range(2 if r.chance(1, 6) else 1):
+            k = r.below(6)
+            js = xs[:r.rint(1, nx)]
+            lin = self.lin(nv, 1, 2) if r.chance(2, 3) else {}
+            if k <= 2:
+                m.obj('min', lin, sumsq(js, {j: r.rint(1, 3) for j in js}))
+            elif k == 3:
+                m.obj('max', lin, ('neg', sumsq(js, {j: r.rint(1, 3) for j in js})))
+            elif k == 4:
+                m.obj('min', lin, ('+', sumsq(js), ('*', ('v', xs[0]), ('v', xs[1]))))   # not separable
+            else:
+                m.obj(r.choice(['min', 'max']), self.lin(nv, 1, 3), None)
+        scheme = r.choice(['plain', 'ampl', 'underscore', 'adversarial'])
+        self.scheme = scheme
+        tv, tc = set(), set()
+        for v, nm in zip(m.vars, self.names('v', nv, scheme, tv)):
+            v['name'] = nm
+        for c, nm in zip(m.cons, self.names('c', len(m.cons), scheme, tc)):
+            c['name'] = nm
+        for o, nm in zip(m.objs, self.names('o', len(m.objs), scheme, tc)):
+            o['name'] = nm
+        return m
 
     # ---------------- whole model
     def model(self):
